@@ -19,7 +19,7 @@ func init() {
 			"R2: a node is handed back to the pool only on an edge where its reference count is tested to be zero (or <=0) and after the unlink routine was applied to it on every path. " +
 			"R3: Add pairs the list append with the index store, Remove pairs the unlink with the index delete. " +
 			"R4: Iterator() increments the reference count of the node it starts from and stores that node in the iterator; Close() calls the release routine exactly once and clears the pointer. " +
-			"R5: in the advance routine every new cursor value gets a reference (+1) on its incoming path and the old cursor loses one (-1) before, also between two consecutive steps. R6: payload is read only from live nodes; R7: cursor routines get only iterator cursors; R8: links are written only by node methods; R9: the unlink routine reports nil or its own successor as new head; R10: release drops its reference before testing the count.",
+			"R5: in the advance routine every new cursor value gets a reference (+1) on its incoming path and the old cursor loses one (-1) before, also between two consecutive steps. R6: payload is read only from live nodes; R7: cursor routines get only iterator cursors; R8: links are written only by node methods; R9: the unlink routine reports nil or its own successor as new head; R10: release drops its reference before testing the count. R11: the unlink routine overwrites every payload field of the node (key and value) with its zero value on every path that changes the node.",
 		NotDecided: "order and liveness of what an iterator returns over all histories (a value statement); the list pointer surgery inside the unlink routine.",
 	})
 	register(&Check{
@@ -28,7 +28,7 @@ func init() {
 		Run:       runC11,
 		Technique: "static analysis: typestate (acquire/close on all paths) over go/ssa for every iterable.Iterator obtained inside library code, plus the C10 head-propagation rule",
 		Explanation: "R1: every value of an iterable.Iterator type obtained by a call of Map.Iterator in non-test library code, and neither returned nor stored into a field, is closed (defer or explicit) on every path to a normal exit. " +
-			"R2 (=C10.R1): the unlink result is propagated to the head at every call site, otherwise a stuck head pins every removed node behind it. R3: cursor routines are applied only to iterator cursors. M1-M10: the reference counting and list rules of C10. R4: every insert of the LRU cache is followed by the capacity test in the same critical section (C09.R4).",
+			"R2 (=C10.R1): the unlink result is propagated to the head at every call site, otherwise a stuck head pins every removed node behind it. R3: cursor routines are applied only to iterator cursors. M1-M10: the reference counting and list rules of C10. R4: every insert of the LRU cache is followed by the capacity test in the same critical section (C09.R4). R5: the unlink routine overwrites every payload field of the node (key and value) with its zero value on every path that changes the node - a recycled node keeps nothing of the removed entry reachable.",
 		NotDecided: "the numeric retention bound and the cost growth; leaks through iterators that user code forgets to close.",
 	})
 }
@@ -197,7 +197,10 @@ func headPropagation(c *Ctx, rule string, r *mapRoles) {
 	c.R.Floor(rule, 3)
 }
 
-func runC10(c *Ctx) { mapRules(c, "C10.R") }
+func runC10(c *Ctx) {
+	mapRules(c, "C10.R")
+	c.unlinkClearsPayload(resolveMapRoles(c), "C10.R11")
+}
 
 // mapRules runs the structural rules of the ordered map under the rule-id prefix pfx (C10.R, C08.M).
 func mapRules(c *Ctx, pfx string) {
@@ -494,6 +497,7 @@ func runC11(c *Ctx) {
 	c.payloadAndCursorDiscipline(r, "", "C11.R3")
 	// M: nothing is retained only if the reference counts balance and the list stays consistent (rules of C10)
 	mapRules(c, "C11.M")
+	c.unlinkClearsPayload(r, "C11.R5")
 	// R4: the cache holds at most its capacity: the capacity rule of C09
 	lruCapacityRule(c, resolveLRURoles(c), "C11.R4")
 }
@@ -709,4 +713,75 @@ func (c *Ctx) linkCensus(r *mapRoles, rule string) {
 		})
 	}
 	c.R.Floor(rule, 4)
+}
+
+// unlinkClearsPayload (C11.R5 / C10.R11): a node that is taken out of the map keeps nothing of the entry it carried: on
+// every path of the unlink routine that changes the node (writes a link, the state, or a payload field) every payload
+// field - the fields whose type is a type parameter of the node: key and value - is overwritten with its zero value.
+// A field left behind stays reachable through the recycled node (the pool, or the terminal node a recycled node becomes):
+// the removed entry's key is retained after every iterator was closed, and First()/Next() at the end of the list report
+// it (with ok=false) instead of the zero key.
+func (c *Ctx) unlinkClearsPayload(r *mapRoles, rule string) {
+	fn := r.unlink
+	if fn == nil || len(fn.Params) == 0 {
+		c.Fatalf("role unlink routine not resolved")
+	}
+	recv := fn.Params[0]
+	payload := fieldsWhere(r.node, func(f *types.Var) bool {
+		_, isTP := f.Type().(*types.TypeParam)
+		return isTP
+	})
+	if len(payload) < 2 {
+		c.R.Errorf("%s: the node type has %d payload (type-parameter) fields, expected key and value", rule, len(payload))
+	}
+	isZero := func(v ssa.Value) bool {
+		if ir.IsZeroConst(v) {
+			return true
+		}
+		if u, ok := v.(*ssa.UnOp); ok && u.Op == token.MUL {
+			if a, ok := u.X.(*ssa.Alloc); ok && len(ir.StoresTo(a)) == 0 {
+				return true
+			}
+		}
+		return false
+	}
+	var mutations []ssa.Instruction
+	ir.Instrs(fn, func(in ssa.Instruction) {
+		if st, ok := in.(*ssa.Store); ok {
+			if fa, ok := st.Addr.(*ssa.FieldAddr); ok && namedOf(fa.X.Type()) == r.node && same(ir.Resolve(fa.X), recv) {
+				mutations = append(mutations, in)
+			}
+		}
+	})
+	for _, p := range payload {
+		p := p
+		zeroStore := func(x ssa.Instruction) bool {
+			st, ok := x.(*ssa.Store)
+			if !ok {
+				return false
+			}
+			fa, ok := st.Addr.(*ssa.FieldAddr)
+			return ok && ir.FieldOf(fa) == p && same(ir.Resolve(fa.X), recv) && isZero(st.Val)
+		}
+		bad := ""
+		var at ssa.Instruction
+		for _, m := range mutations {
+			if zeroStore(m) {
+				continue
+			}
+			before, e1 := (ir.Query{Fn: fn, Block: zeroStore, Target: func(x ssa.Instruction) bool { return x == m }}).Find()
+			after, e2 := (ir.Query{Fn: fn, From: m, Block: zeroStore, Target: ir.IsExit}).Find()
+			if e1 != nil || e2 != nil {
+				c.Undecided(rule, fn, "unlink clears "+p.Name(), m, "path query exceeded its bound")
+				return
+			}
+			if before != nil && after != nil {
+				bad = "path " + before.String(c.P) + " then " + after.String(c.P)
+				at = m
+				break
+			}
+		}
+		c.Decide(rule, fn, "unlink zeroes the node's payload field of type "+p.Type().String(), at, bad == "",
+			"the unlink routine changes the node on a path that never overwrites its "+p.Type().String()+"-typed payload field with the zero value: the removed entry stays reachable through the recycled node after all iterators were closed (and First()/Next() at the end of the list report a removed key): "+bad)
+	}
 }
